@@ -49,18 +49,29 @@ def tree_hash(repo=REPO):
         h.update(hashlib.sha256(fh.read()).digest())
     return h.hexdigest()[:24]
 
+def _mtime(p):
+    try: return os.path.getmtime(p)
+    except OSError: return None          # removed by a concurrent check in the meantime
+
 def _evict(keep):
+    """drop all but the newest cache entries; tolerant of concurrent checks that evict at the same time"""
     if not os.path.isdir(CACHE):
         return
-    ents = [os.path.join(CACHE, d) for d in os.listdir(CACHE)]
-    ents = [e for e in ents if os.path.isdir(e) and os.path.basename(e) != keep]
-    ents.sort(key=lambda p: os.path.getmtime(p), reverse=True)
+    try: names = os.listdir(CACHE)
+    except OSError: return
+    ents = [os.path.join(CACHE, d) for d in names]
+    ents = [(e, _mtime(e)) for e in ents if os.path.isdir(e) and os.path.basename(e) != keep]
+    ents = [(e, m) for e, m in ents if m is not None]
+    ents.sort(key=lambda x: x[1], reverse=True)
     now = time.time()
-    for e in ents[4:]:
+    for e, _ in ents[4:]:
         # never evict a directory that may be in use by a concurrent check (used within the last 20 min)
-        if now - os.path.getmtime(e) > 1200:
+        m = _mtime(e)
+        if m is not None and now - m > 1200:
             shutil.rmtree(e, ignore_errors=True)
-            for l in os.listdir(CACHE):
+            try: locks = os.listdir(CACHE)
+            except OSError: locks = []
+            for l in locks:
                 if l.startswith(os.path.basename(e) + ".") and l.endswith(".lock"):
                     try: os.unlink(os.path.join(CACHE, l))
                     except OSError: pass
